@@ -127,6 +127,8 @@ impl ClientPlan {
                 long_status_text: 0,
                 nack_keeps_connection: false,
                 registration_currency: None,
+                eod_abort_receipt: None,
+                status_shows_abort_code: false,
             },
             init: ConfigureOutcome::plain(),
             ops,
